@@ -64,7 +64,17 @@ func (g *G) chaosWrap(sc []string, e *Expr, depth int) *Expr {
 		}
 		if fn == "range" {
 			// keep finite data finite in memory: bounded literal limits, any step (also zero and negative)
-			r := []*Expr{{Op: "int", I: int64(g.Intn(20)) - 5}, {Op: "int", I: int64(g.Intn(2000))}, {Op: "int", I: int64(g.Intn(7)) - 3}}[:1+g.Intn(3)]
+			// (arguments of any numeric kind: small ints, floats, fractions, NaN - but bounded limits)
+			small := func(ints int64, base int64) *Expr {
+				switch g.Intn(6) {
+				case 0:
+					return &Expr{Op: "float", Text: []string{"0.5", "0.0", "-2.5", "1.5", "0.25", "2.0"}[g.Intn(6)]}
+				case 1:
+					return &Expr{Op: "/", Args: []*Expr{{Op: "int", I: int64(g.Intn(3))}, {Op: "int", I: int64(g.Intn(3))}}}
+				}
+				return &Expr{Op: "int", I: int64(g.Intn(int(ints))) + base}
+			}
+			r := []*Expr{small(20, -5), small(2000, 0), small(7, -3)}[:1+g.Intn(3)]
 			return &Expr{Op: "list", Args: []*Expr{e, {Op: "call", Name: "range", Args: r}}}
 		}
 		return &Expr{Op: "call", Name: fn, Args: args}
